@@ -47,6 +47,7 @@ class C15(Check):
             "malformed file or directory name to the scanned root. distinct = hash of (max depth, sorted designations used, "
             "malformed kind, decoy present); non-trivial = depth >= 1 and a non-absolute designation or an alias was used, or a "
             "malformed name was present")
+    RULE = RULE + "; " + "rounds 7-8: an ancestor directory with the root's name in another letter case; malformed names in the lookup role; signed / out-of-range numeric fields"
     TIERS = {"quick": {"runs": 1600, "budget_s": 50}, "thorough": {"runs": 80000, "budget_s": 900}}
     ASSUMPTIONS = ["a file name with an empty short name (.1.0.dsdl) or with an out-of-range / signed number is demanded to be rejected only where the definition is read (target role)",
                    "numeric components that only Python's int() accepts (+1, 1_0, leading zeros, non-ASCII digits) are not generated",
